@@ -86,3 +86,31 @@ def run_suite(suite, scratch, tier, only=None, timeout_s=1500):
     rec['n_failures'] = summary['failures']
     rec['status'] = 'failed' if summary['failures'] else 'success'
     return rec
+
+
+def run_probe(name, scratch, mem_gb=3, timeout_s=20):
+    """Run `verif-xrun <name>` in a subprocess under an address-space limit and a time limit.
+    Returns dict(status: 'returned' | 'killed(...)' | 'error(...)', detail)."""
+    import resource
+    binp, log = build(scratch)
+    rec = {'probe': name, 'cmd': 'verif-xrun %s (RLIMIT_AS %d GB, timeout %ds)' % (name, mem_gb, timeout_s), 'build': log}
+    if binp is None:
+        rec['status'] = 'error(build)'
+        return rec
+
+    def limit():
+        resource.setrlimit(resource.RLIMIT_AS, (mem_gb << 30, mem_gb << 30))
+    t0 = time.time()
+    try:
+        p = subprocess.run([binp, name], capture_output=True, text=True, timeout=timeout_s, preexec_fn=limit)
+    except subprocess.TimeoutExpired:
+        rec['status'] = 'killed(no result within %ds)' % timeout_s
+        rec['wall_s'] = round(time.time() - t0, 1)
+        return rec
+    rec['wall_s'] = round(time.time() - t0, 1)
+    if p.returncode == 0 and '"returned":true' in p.stdout:
+        rec['status'] = 'returned'
+        rec['detail'] = p.stdout.strip()[-200:]
+    else:
+        rec['status'] = 'killed(rc=%s: %s)' % (p.returncode, (p.stderr or '').strip().split('\n')[-1][:160])
+    return rec
